@@ -98,7 +98,10 @@ RECIPES = {
         monitors={"C15"},
         mc=[MC_FRAMES, MC_FRAMES_REAL, MC_CLEAN],
         runs=[dict(cmd="run", gen="boundary:80,gc-heavy:20,big:10,small:30,aim-block:60,aim-gc:20,aim-roll:20,rejects:30,aim-noop:10", policy="always_flush"),
-              dict(cmd="run", gen="boundary:20,gc-heavy:8", policy="do_nothing")],
+              dict(cmd="run", gen="boundary:20,gc-heavy:8", policy="do_nothing"),
+              # a truncate / delete whose GC pass meets an I/O error (the oldest file removed behind the library's back,
+              # the unlink fails after the position entries were appended): a call that returns Ok reports what it appended
+              dict(cmd="gcfail", opts={"cases": "24"}, opts_thorough={"cases": "200"})],
         rule="every mutating call: reported wal_bytes_written = bytes of its buffered writes = advance of the writer "
              "cursor; 0 iff nothing written; non-trivial = calls that wrote",
         nontrivial_stat="writing_calls",
